@@ -1538,3 +1538,45 @@ def handler_lag_probe(n_per_writer=450, busy_ms=3000):
                     foreign_served=len(set(foreign) & set(outs)), foreign_appended=len(foreign))
     finally:
         cl.close()
+
+
+def http_write_atomicity_probe():
+    """C04 through the HTTP routes: each mutating request is ONE journal commit. The server runs under the crash shim in
+    counting mode; the tracked system calls of an import that OVERWRITES a stored id (other topic) are compared with those
+    of an import of a fresh id, of an append and of a remove -> dict(calls per request kind)"""
+    import tempfile, shutil
+    from . import crashengine as K
+    K.build_shim()
+    os.makedirs(os.path.join(build.BUILD, "work"), exist_ok=True)
+    wd = tempfile.mkdtemp(prefix="atom", dir=os.path.join(build.BUILD, "work"))
+    path = os.path.join(wd, "s")
+    cf = os.path.join(wd, "count.txt")
+    cl = Client("api", path=path, env=dict(LD_PRELOAD=K.SHIM, XSV_TRACK=path, XSV_COUNT_FILE=cf))
+    cl.wd = wd
+    def calls():
+        try:
+            return [l.split() for l in open(cf).read().splitlines() if l.strip()]
+        except Exception:
+            return []
+    def journal_ops(before, after):
+        # commits = writes to the journal, syncs = fsync/fdatasync: only calls on fjall's files (not the CAS)
+        new = after[len(before):]
+        w = sum(1 for t in new if len(t) > 1 and t[1].startswith(("write", "pwrite")) and "cacache" not in " ".join(t))
+        f = sum(1 for t in new if len(t) > 1 and t[1].startswith(("fsync", "fdatasync")) and "cacache" not in " ".join(t))
+        return (w, f)
+    out = {}
+    try:
+        time.sleep(0.2)
+        a = cl.append("a")                     # no body: no CAS traffic
+        def imp(i, topic):
+            fj = dict(topic=topic, context_id=H.id_to_s(0), id=H.id_to_s(i), hash=None, meta=None, ttl=None)
+            return cl.request(H.render("POST", "/import", body=json.dumps(fj).encode()))[0]
+        c0 = calls(); st1 = imp(12345, "fresh"); c1 = calls()
+        st2 = imp(a, "b"); c2 = calls()            # overwrites the stored id `a` under another topic
+        b = cl.append("c"); c3 = calls()
+        cl.request(H.render("DELETE", "/" + H.id_to_s(b))); c4 = calls()
+        out = dict(import_fresh=journal_ops(c0, c1), import_overwrite=journal_ops(c1, c2), append=journal_ops(c2, c3),
+                   remove=journal_ops(c3, c4), statuses=[st1, st2], tracked_total=len(c4))
+        return out
+    finally:
+        cl.close()
